@@ -221,14 +221,18 @@ func c19Check(c C19Case, rec *Recorder) *Disc {
 	return c19CheckErr(err, c.Break, desc, rec)
 }
 
-func TestC19(t *testing.T) {
-	Prop[C19Case]{ID: "C19", Gen: c19Gen, Check: c19Check,
+func c19Prop() Prop[C19Case] {
+	return Prop[C19Case]{ID: "C19", Gen: c19Gen, Check: c19Check,
 		Rule: "generator: join trees built recursively with errors.Join (depth <= 6, fan-out 1-5, joins of one, nested joins, the same leaf pointer at several positions, equal-but-distinct leaves) from non-nil leaves (the eight cfgerrors types and foreign errors) x break position in [-1, leaves]; " +
 			"25% of cases instead use the error returned by NewMiddleware for a many-violation configuration. Oracle: full iteration yields exactly the leaves as a multiset by identity (order is documented as unspecified); " +
 			"with a consumer that stops after k items: exactly k+1 calls to yield, none afterwards (hand-driven iterator and range+break); for configuration errors: count == number of individual violations. " +
 			"non-trivial = depth >= 2 with the break strictly before the last leaf, or a configuration error with >= 2 leaves; distinct by (tree, break).",
-		Assumptions: []string{"All(nil), %w-wrapped joins and errors.Join() of nothing are outside the documented contract and not generated"}}.Run(t)
+		Assumptions: []string{"All(nil), %w-wrapped joins and errors.Join() of nothing are outside the documented contract and not generated"}}
 }
+
+func TestC19(t *testing.T) { c19Prop().Run(t) }
+
+func FuzzC19(f *testing.F) { FuzzProp(f, c19Prop()) }
 
 // ---------------------------------------------------------------------------
 // exhaustive: every ordered tree with at most N nodes x every break position
